@@ -109,9 +109,9 @@ def build_items(tier, seed, wd):
     base_inputs = [p for p in paths if p.endswith("_test_input.vhd") or "/styles/code_examples/" in p or "/rule_doc/" in p]
     # comments at every line end / between all lines, case, spacing.  (Line-break and join recipes are used for C05 -
     # classification - where the property names them; see DESIGN.md section 5 for why the fix family leaves them out.)
-    recipes = ["eol1", "eolt1", "own1", "upper"] if tier == "quick" else ["eol1", "eolt1", "eol3a", "eol3b", "own1", "own3", "upper", "lower", "flip", "widen", "narrow"]  # not: break*, join*, breakcmt*
+    recipes = ["eol1", "eolt1", "own1", "upper", "widen", "tight"] if tier == "quick" else ["eol1", "eolt1", "eol3a", "eol3b", "own1", "own3", "upper", "lower", "flip", "widen", "narrow", "tight", "tight2a", "tight2b"]  # not: break*, join*, breakcmt*
     for ri, rname in enumerate(recipes):
-        chosen = corpus.stratified_sample(base_inputs, 100 if tier == "quick" else len(base_inputs), seed + 17 * (ri + 1), always=("/styles/code_examples/",))
+        chosen = corpus.stratified_sample(base_inputs, 90 if tier == "quick" else len(base_inputs), seed + 17 * (ri + 1), always=("/styles/code_examples/",))
         for p in chosen:
             try:
                 with open(p, encoding="utf-8", newline="") as f:
